@@ -240,15 +240,15 @@ example : holds [.reqSite [.genReq [("x", "1")] ["r"] "g", .modHdr [("x", "2"), 
 
 /-- `runOnRequest`: the first remedy that answers the request itself wins, unchanged, whatever
     the other remedies answer (a `GenerateRequestAction` before it included). -/
-theorem legacy_first_early (H0 : Hdrs) (rs : List Remedy) (e : ReqAct)
-    (he : firstEarly (scriptReq { hdrs := H0 } rs) = some e) : legacyFoldReq H0 rs = e := by
+theorem legacy_first_early (env : ReqEnv) (rs : List Remedy) (e : ReqAct)
+    (he : firstEarly (scriptReq env rs) = some e) : legacyFoldReq env rs = e := by
   obtain ⟨pre, post, hsplit, hpre, hE⟩ := firstEarly_some _ e he
   unfold legacyFoldReq
   rw [hsplit]; exact fold_first_early pre post e hpre hE
 
 /-- `runOnRequest` obeys the whole request rule for the remedies' answers. -/
-theorem legacy_fold_ok (H0 : Hdrs) (rs : List Remedy) :
-    reqFoldOk (scriptReq { hdrs := H0 } rs) (legacyFoldReq H0 rs) = true :=
+theorem legacy_fold_ok (env : ReqEnv) (rs : List Remedy) :
+    reqFoldOk (scriptReq env rs) (legacyFoldReq env rs) = true :=
   req_fold_ok _
 
 /-- `obtainModifiedEarlyResponse` keeps status and body of the early response; its header map
@@ -264,9 +264,31 @@ theorem legacy_rerun_other (rs : List Remedy) (a : ReqAct) (h : a.isEarly = fals
     rerunEarly rs a = a := rerunEarly_of_not_early rs a h
 
 /-- Connection: the judge predicate of the legacy request site is true of every model run. -/
-theorem legacy_req_holds (H0 : Hdrs) (rs : List Remedy) :
-    legacyReqHolds H0 rs (encodeReq (legacyReq H0 rs)) = true :=
-  legacyReqHolds_legacyReq H0 rs
+theorem legacy_req_holds (env : ReqEnv) (rs : List Remedy) :
+    legacyReqHolds env rs (encodeReq (legacyReq env rs)) = true :=
+  legacyReqHolds_legacyReq env rs
+
+/-- A SEQUENCE of transactions (requests and provider responses) against the same plugins (state —
+    authentication caches, the response cache — carried by `envAfter`/`envAfterResp`): every transaction's variables obey
+    the rule for what ITS OWN remedies answered — nothing leaks from an earlier transaction. -/
+theorem legacy_sequence_holds (st : ReqEnv) (txns : List Txn) : legacySeqHolds st txns = true := by
+  induction txns generalizing st with
+  | nil => rfl
+  | cons t ts ih =>
+    cases t with
+    | req h rs => simp only [legacySeqHolds, legacy_req_holds, Bool.true_and]; exact ih _
+    | resp s b h rs =>
+      have hr : legacyRespHolds s rs (encodeResp (legacyResp s rs)) = true := resp_site_holds _
+      simp only [legacySeqHolds, hr, Bool.true_and]; exact ih _
+
+/-- F07c regression on the model: a response is cached, a hit is answered with a retry remedy firing
+    (the answer gains the retry header), the NEXT hit carries the stored headers only. -/
+example :
+    let e0 : ReqEnv := { hdrs := [] }
+    let e1 := envAfterResp e0 200 "B" [("h", "1")] [.cache]
+    let e2 := envAfter e1 [.cache, .retry 5 200 299]
+    legacyReq e1 [.cache, .retry 5 200 299] = .early 200 "B" [("h", "1"), ("x-lunar-retry-after", "5")] ∧
+    legacyReq e2 [.cache] = .early 200 "B" [("h", "1")] := by decide
 
 /-- … and of the legacy response site. -/
 theorem legacy_resp_holds (status : Int) (rs : List Remedy) :
@@ -275,11 +297,16 @@ theorem legacy_resp_holds (status : Int) (rs : List Remedy) :
 
 /-- OAuth (`GenerateRequestAction`) first, then a fixed response: the early response wins; a retry
     remedy covering 418 adds its header, status and body stay. -/
-example : legacyReq [("early-response", "true")]
+example : legacyReq { hdrs := [("early-response", "true")] }
     [.oauth "s3cr3t", .acct [("x", "1")], .fixed 418, .fixed 503, .retry 5 400 499, .retry 7 0 599] =
     .early 418 fixedBody [("powered-by", "Lunar Interventions Inc."), ("x-lunar-retry-after", "7")] := by decide
 
-example : legacyReq [("a", "A")] [.acct [("x", "1")], .oauth "t", .apikey [("x", "3")], .fixed 418] =
+/-- A throttled answer (429) with a retry remedy covering it gains the retry header — in THAT transaction only. -/
+example : legacyReq { hdrs := [] } [.throttle 429, .retry 5 400 499] =
+    .early 429 throttleBody [("content-type", "text/plain"), ("x-lunar-retry-after", "5")] ∧
+    legacyReq { hdrs := [] } [.throttle 429] = .early 429 throttleBody [("content-type", "text/plain")] := by decide
+
+example : legacyReq { hdrs := [("a", "A")] } [.acct [("x", "1")], .oauth "t", .apikey [("x", "3")], .fixed 418] =
     .modReq [("a", "A"), ("x", "3")] "" "" "" "" := by decide
 
 /-! ## Object level: the fold on pointers agrees with the fold on values -/
